@@ -81,6 +81,14 @@ func parseExtensions(e []AnyExtension) ([]config.ExtensionConfig, error) {
 				return nil, fmt.Errorf("field '%v' can't be casted properly", innerStructTyp.Name)
 			}
 
+			//the schema only checks the form of a custom oid; an arc that
+			//does not fit an integer must be refused here, since Oid() can't fail
+			if custom, isCustom := innerStructAny.(CustomExtension); isCustom {
+				if _, err := cert.OidFromString(custom.OidStr); err != nil {
+					return nil, fmt.Errorf("extension number %d: '%v' is not a usable oid: %v", i, custom.OidStr, err)
+				}
+			}
+
 			out = append(out, innerStruct)
 		}
 
